@@ -119,6 +119,10 @@ def search_call(fn, var, cmp_name, sentry_fields):
     return name == "upper_bound"
 
 
+def find_ifs_in(node):
+    return [n for n in walk(node) if n.get("kind") == "IfStmt"]
+
+
 def bool_def(name, value, doc):
     return "/-- %s -/\ndef %s : Bool := %s\n" % (doc, name, "true" if value else "false")
 
@@ -169,11 +173,30 @@ def generate():
     # findLocalTime(const DateTime&, bool postTransition)
     f2 = the_function(docs, "findLocalTime", nparams=2)
     t = ZTr({"transitions.empty()": "(n = 0)", "localtime": "localtime", "transitions.front().localtime": "firstLocal"})
-    first = [i for i in find_ifs(f2) if mentions(if_cond(i), "front")]
+    fronts = [i for i in find_ifs(f2) if mentions(if_cond(i), "front")]
+    first = [i for i in fronts if not mentions(if_cond(i), "postTransition")]
     if len(first) != 1:
         raise ExtractError("findLocalTime(local): the test against transitions.front() was not found")
     out.append(prop_def("localUseFirst", [("n", N), ("localtime", I), ("firstLocal", I)], unparen(t.expr(if_cond(first[0]))),
                         "`findLocalTime(local, post)`: before the first transition, use `localtimes.front()`"))
+    # inside it: the local time that the FIRST transition skipped, read after the transition
+    inner = [i for i in fronts if mentions(if_cond(i), "postTransition")]
+    nested = [i for i in find_ifs_in(kids(first[0])[1])]
+    if len(inner) != 1 or [x.get("id") for x in nested] != [inner[0].get("id")] or len(kids(first[0])) != 2:
+        raise ExtractError("findLocalTime(local): expected, inside the test against transitions.front(), exactly the test "
+                           "`postTransition && !transitions.empty() && front().utctime - 1 + localtimes.front().utcOffset < localtime`")
+    rets = [strip(kids(r)[0]) for r in walk(kids(inner[0])[1]) if r.get("kind") == "ReturnStmt" and kids(r)]
+    if len(kids(inner[0])) != 2 or len(rets) != 1 or not (mentions(rets[0], "front") and mentions(rets[0], "localtimeIdx")
+                                                           and mentions(rets[0], "localtimes")):
+        raise ExtractError("findLocalTime(local): the first-transition skip does not return &localtimes[transitions.front().localtimeIdx]")
+    t = ZTr({"postTransition": "(post = true)", "transitions.empty()": "(n = 0)", "transitions.front().utctime": "firstUtc",
+             "localtimes.front().utcOffset": "frontOffset", "localtime": "localtime"})
+    out.append(prop_def("firstSkipPost", [("post", "Bool"), ("n", N), ("firstUtc", I), ("frontOffset", I), ("localtime", I)],
+                        unparen(t.expr(if_cond(inner[0]))),
+                        "`findLocalTime(local, post)`: the local time was skipped by the FIRST transition (before it `localtimes.front()` "
+                        "is in force) and the reading after the transition is asked for: `&localtimes[transitions.front().localtimeIdx]`"))
+    if t.used != {"postTransition", "transitions.empty()", "transitions.front().utctime", "localtimes.front().utcOffset", "localtime"}:
+        raise ExtractError("findLocalTime(local): the first-transition skip test no longer reads what the model gives it")
     out.append(bool_def("localSearchUpper", search_call(f2, "transI", "CompareLocalTime", ["0", "localtime", "0"]),
                         "`findLocalTime(local, post)`: `transI` is `std::upper_bound(begin, end, Transition(0,localtime,0), CompareLocalTime())` "
                         "(`false`: `std::lower_bound`)"))
@@ -203,14 +226,34 @@ def generate():
     t = ZTr(dict(sym))
     out.append(int_def("priorSecond", [("afterLast", "Bool"), ("transUtc", I), ("priorOffset", I)], unparen(t.expr(kids(v)[-1])),
                        "`findLocalTime(local, post)`: last local second before the transition `transI` (initialiser of `prior_second`)"))
-    assigns = [n for n in walk(body_of(f2)) if n.get("kind") == "BinaryOperator" and n.get("opcode") == "="
-               and strip(kids(n)[0]).get("kind") == "DeclRefExpr"
-               and strip(kids(n)[0])["referencedDecl"]["name"] == "prior_second"]
-    if len(assigns) != 1:
-        raise ExtractError("findLocalTime(local): expected exactly one re-assignment of prior_second")
+    def assigns_in(node, var):
+        return [n for n in walk(node) if n.get("kind") == "BinaryOperator" and n.get("opcode") == "="
+                and strip(kids(n)[0]).get("kind") == "DeclRefExpr" and strip(kids(n)[0])["referencedDecl"]["name"] == var]
+    if len(kids(begins[0])) != 3:
+        raise ExtractError("findLocalTime(local): the test of transI against begin() has no else branch (the first transition)")
+    thn, els = kids(begins[0])[1], kids(begins[0])[2]
+    assigns = assigns_in(thn, "prior_second")
+    if len(assigns) != 1 or len(assigns_in(body_of(f2), "prior_second")) != 2:
+        raise ExtractError("findLocalTime(local): expected exactly one re-assignment of prior_second in each branch after `--transI`")
     t = ZTr(dict(sym))
     out.append(int_def("priorSecond2", [("transUtc", I), ("priorOffset", I)], unparen(t.expr(kids(assigns[0])[1])),
                        "the same, re-computed after `--transI` (assignment to `prior_second`)"))
+    # else: the first transition - `prior_trans.localtimeIdx = 0; prior_second = transI->utctime - 1 + localtimes.front().utcOffset;`
+    a2 = assigns_in(els, "prior_second")
+    idx = [n for n in walk(els) if n.get("kind") == "BinaryOperator" and n.get("opcode") == "="
+           and strip(kids(n)[0]).get("kind") == "MemberExpr" and strip(kids(n)[0]).get("name") == "localtimeIdx"
+           and mentions(kids(n)[0], "prior_trans")]
+    if len(a2) != 1 or len(idx) != 1 or strip(kids(idx[0])[1]).get("kind") != "IntegerLiteral":
+        raise ExtractError("findLocalTime(local): the branch of the first transition is not "
+                           "`prior_trans.localtimeIdx = <literal>; prior_second = ..;`")
+    out.append("/-- `findLocalTime(local, post)`, `transI == begin()`: the record in force before the first transition is "
+               "`localtimes[%d]` (`prior_trans.localtimeIdx = %d`) -/\ndef priorIdxFirst : Nat := %d\n"
+               % ((int(strip(kids(idx[0])[1])["value"]),) * 3))
+    t = ZTr({"transI.utctime": "transUtc", "localtimes.front().utcOffset": "frontOffset"})
+    out.append(int_def("priorSecondFirst", [("transUtc", I), ("frontOffset", I)], unparen(t.expr(kids(a2[0])[1])),
+                       "`findLocalTime(local, post)`, `transI == begin()`: last local second before the FIRST transition"))
+    if t.used != {"transI.utctime", "localtimes.front().utcOffset"}:
+        raise ExtractError("findLocalTime(local): prior_second of the first transition no longer reads transI->utctime and localtimes.front().utcOffset")
     skip = [i for i in find_ifs(f2) if mentions(if_cond(i), "prior_second") and mentions(if_cond(i), "localtime")]
     if len(skip) != 2:
         raise ExtractError("findLocalTime(local): expected the skip test and the repeat test, found %d" % len(skip))
